@@ -18,7 +18,11 @@ impl<'a> Visitor<'a> for DefaultValuesOfCorrectType {
         ctx: &mut VisitorContext<'a>,
         variable_definition: &'a Positioned<VariableDefinition>,
     ) {
-        if let BaseType::Named(vtype_name) = &variable_definition.node.var_type.node.base
+        let mut base_type = &variable_definition.node.var_type.node.base;
+        while let BaseType::List(item_type) = base_type {
+            base_type = &item_type.base;
+        }
+        if let BaseType::Named(vtype_name) = base_type
             && !ctx.registry.types.contains_key(vtype_name.as_str())
         {
             ctx.report_error(
